@@ -306,7 +306,9 @@ class RandomEviction(CacheEvictionPolicy):
         """Return a random key."""
         if not self._keys:
             return None
-        key = self._rng.choice(list(self._keys))
+        # sorted(): the enumeration order of a set of str varies with PYTHONHASHSEED,
+        # which would make the victim differ between processes for the same seed.
+        key = self._rng.choice(sorted(self._keys))
         self._keys.discard(key)
         return key
 
